@@ -94,3 +94,78 @@ def increment_of(st, name):
         if is_name(r, name) and isinstance(l, ast.Constant):
             return l.value
     return None
+
+
+# ------------------------------------------------------------------------------------------------ pure memo tables
+PURE_FUNCS = {'re.compile', 're.escape', 'str', 'int', 'float', 'bool', 'tuple', 'frozenset', 'len', 'repr', 'chr', 'ord', 'RegExp', 'String', 'Number'}
+PURE_METHODS = {'join', 'format', 'replace', 'lower', 'upper', 'strip', 'lstrip', 'rstrip', 'encode', 'decode', 'get', 'startswith', 'endswith', 'toLowerCase', 'toUpperCase'}
+
+
+def pure_memo_store(fd, store, table_name, module_consts):
+    """Is `store` (TABLE[K] = V, or TABLE.set(K, V)) inside fd the filling of a pure memo table?  That is: everything V is computed from
+    is also part of the key K (through the function's local definitions), the computation uses only side-effect free operations
+    with immutable results, and every store into TABLE in this function has that shape.  Such a table is unobservable: a hit
+    returns what a miss would compute.  (Whether a *mutable* cached value is modified by its users is the ownership analysis'
+    question, not this one.)  Returns a short description, or None."""
+    if isinstance(store, ast.Assign) and isinstance(store.targets[0], ast.Subscript):
+        key, val = store.targets[0].slice, store.value
+    elif isinstance(store, ast.Call) and isinstance(store.func, ast.Attribute) and store.func.attr == 'set' and len(store.args) == 2:
+        key, val = store.args
+    else:
+        return None
+    params = {a.arg for a in fd.args.args + fd.args.kwonlyargs}
+    defs = {}
+    for n in ast.walk(fd):
+        if isinstance(n, ast.Assign) and len(n.targets) == 1 and isinstance(n.targets[0], ast.Name):
+            v = n.value
+            # a look-up in the table itself is not an input of the computation
+            if isinstance(v, ast.Call) and isinstance(v.func, ast.Attribute) and v.func.attr == 'get' and isinstance(v.func.value, ast.Name) and v.func.value.id == table_name:
+                continue
+            if isinstance(v, ast.Subscript) and isinstance(v.value, ast.Name) and v.value.id == table_name:
+                continue
+            defs.setdefault(n.targets[0].id, []).append(v)
+        elif isinstance(n, (ast.AugAssign, ast.For, ast.With, ast.NamedExpr)) or (isinstance(n, ast.Assign) and not isinstance(n.targets[0], ast.Name) and n is not store):
+            if isinstance(n, ast.Assign) and isinstance(n.targets[0], ast.Subscript) and isinstance(n.targets[0].value, ast.Name) and n.targets[0].value.id == table_name:
+                continue
+            return None      # anything beyond straight-line definitions: not the idiom
+
+    def deps(e, seen):
+        out = set()
+        for x in ast.walk(e):
+            if isinstance(x, ast.Call):
+                d = None
+                if isinstance(x.func, ast.Name):
+                    d = x.func.id
+                elif isinstance(x.func, ast.Attribute) and isinstance(x.func.value, ast.Name) and x.func.value.id == 're':
+                    d = 're.' + x.func.attr
+                if d is not None:
+                    if d not in PURE_FUNCS:
+                        return None
+                elif isinstance(x.func, ast.Attribute):
+                    if x.func.attr not in PURE_METHODS:
+                        return None
+                else:
+                    return None
+            elif isinstance(x, ast.Attribute) and not isinstance(getattr(x, 'parent', None), ast.Call):
+                if not (isinstance(x.value, ast.Name) and x.value.id == 're'):
+                    return None      # object state is not part of the key
+            elif isinstance(x, ast.Name) and isinstance(x.ctx, ast.Load):
+                if x.id in params:
+                    out.add(x.id)
+                elif x.id in defs:
+                    if x.id in seen:
+                        continue
+                    for v in defs[x.id]:
+                        d = deps(v, seen | {x.id})
+                        if d is None:
+                            return None
+                        out |= d
+                elif x.id in module_consts or x.id in ('re', 'None', 'True', 'False') or x.id in PURE_FUNCS:
+                    continue
+                else:
+                    return None
+        return out
+    dk, dv = deps(key, set()), deps(val, set())
+    if dk is None or dv is None or not dv <= dk:
+        return None
+    return 'value computed only from the key components {}'.format(sorted(dk))
